@@ -28,7 +28,10 @@ for sid in sorted(os.listdir(f"{ROOT}/seeded")):
     caught = {}
     try:
         for cid in [pid] + ([] if OWN_ONLY else EXTRA.get(pid, [])):
-            rc, out = sh(f"./check {cid} {tier}", ROOT)
+            # first without the second build profile (faster); if that run stays silent, the full command
+            rc, out = sh(f"VERIF_SKIP_ALT=1 ./check {cid} {tier}", ROOT)
+            if rc == 0:
+                rc, out = sh(f"./check {cid} {tier}", ROOT)
             first = next((l for l in out.splitlines() if l.startswith("FAIL ")), "")
             caught[cid] = {"exit": rc, "first_failure": first[:300]}
             # keep the shrunk counterexample as a committed regression input of that property
